@@ -1019,20 +1019,31 @@ mod tests {
 pub mod verif {
     use super::*;
 
-    pub fn mk_sample(pts: u64, dts: u64, data: Vec<u8>, is_sync: bool) -> FragmentSample {
-        FragmentSample {
+    /// Public newtype around the private queued-sample type.
+    pub struct VFragSample(FragmentSample);
+
+    pub fn mk_sample(pts: u64, dts: u64, data: Vec<u8>, is_sync: bool) -> VFragSample {
+        VFragSample(FragmentSample {
             pts,
             dts,
             data,
             is_sync,
+        })
+    }
+
+    fn unwrap_samples<const N: usize>(samples: [VFragSample; N]) -> Vec<FragmentSample> {
+        let mut v = Vec::with_capacity(N);
+        for s in samples {
+            v.push(s.0);
         }
+        v
     }
 
     /// Muxer state built without reallocation (exactly N pushes into a vector
     /// of capacity `N + spare`).
     pub fn muxer_with_state<const N: usize>(
         config: FragmentConfig,
-        samples: [FragmentSample; N],
+        samples: [VFragSample; N],
         spare: usize,
         sequence_number: u32,
         base_media_decode_time: u64,
@@ -1041,7 +1052,7 @@ pub mod verif {
     ) -> FragmentedMuxer {
         let mut queued = Vec::with_capacity(N + spare);
         for s in samples {
-            queued.push(s);
+            queued.push(s.0);
         }
         FragmentedMuxer {
             config,
@@ -1107,31 +1118,35 @@ pub mod verif {
         &m.config
     }
 
-    pub fn build_media_segment(
-        samples: &[FragmentSample],
+    pub fn build_media_segment<const N: usize>(
+        samples: [VFragSample; N],
         sequence_number: u32,
         base_media_decode_time: u64,
         timescale: u32,
     ) -> Vec<u8> {
-        super::build_media_segment(samples, sequence_number, base_media_decode_time, timescale)
+        let v = unwrap_samples(samples);
+        super::build_media_segment(&v, sequence_number, base_media_decode_time, timescale)
     }
-    pub fn build_moof_with_offset(
-        samples: &[FragmentSample],
+    pub fn build_moof_with_offset<const N: usize>(
+        samples: [VFragSample; N],
         sequence_number: u32,
         base_media_decode_time: u64,
         data_offset: u32,
     ) -> Vec<u8> {
-        super::build_moof_with_offset(samples, sequence_number, base_media_decode_time, data_offset)
+        let v = unwrap_samples(samples);
+        super::build_moof_with_offset(&v, sequence_number, base_media_decode_time, data_offset)
     }
-    pub fn build_traf(
-        samples: &[FragmentSample],
+    pub fn build_traf<const N: usize>(
+        samples: [VFragSample; N],
         base_media_decode_time: u64,
         data_offset: u32,
     ) -> Vec<u8> {
-        super::build_traf(samples, base_media_decode_time, data_offset)
+        let v = unwrap_samples(samples);
+        super::build_traf(&v, base_media_decode_time, data_offset)
     }
-    pub fn build_trun(samples: &[FragmentSample], data_offset: u32) -> Vec<u8> {
-        super::build_trun(samples, data_offset)
+    pub fn build_trun<const N: usize>(samples: [VFragSample; N], data_offset: u32) -> Vec<u8> {
+        let v = unwrap_samples(samples);
+        super::build_trun(&v, data_offset)
     }
     pub fn build_mfhd(sequence_number: u32) -> Vec<u8> {
         super::build_mfhd(sequence_number)
